@@ -32,7 +32,7 @@ CLAIMED['C07'] = dict(
    text='Machine-checked theorem about ramalhete_queue node destructor generated from the source: for every node size and every (pop_idx, push_idx) ticket state it destroys exactly the entries of the tickets in [pop, min(push, max)) once each; all queues x owning element kinds (Obj, unique_ptr) x small nodes x destruction with elements inside are covered by a schedule search whose ownership census uses tracked heap tokens (double destruction = double free, leak = live token).',
    note='Trusted: Coq kernel, translator, xvrt/harness. Proved for the generated destructor loop; the other destructors and roll-back paths are explored, not proved.',
    technique='Coq proof over generated destructor; schedule search with ownership census', design='5/C07')
-for _p, _t in (('C08', 'Harris-Michael set/map'), ('C09', 'Harris-Michael iterators'), ('C10', 'vyukov_hash_map'), ('C11', 'vyukov_hash_map iterators')):
+for _p, _t in (('C09', 'Harris-Michael iterators'), ('C10', 'vyukov_hash_map'), ('C11', 'vyukov_hash_map iterators')):
     CLAIMED[_p] = dict(
        text='%s: the deciding part so far is a schedule search over the real code (random, PCT, preemption-bounded DFS, prefix sweeps, sequential op sequences; quarantine and reuse allocator modes; several reclaimers) with exact oracles: linearizability of every explored history against the set/map specification, final traversal and lock-free probes, iterator yield rules, use-after-free / double-free / lost-lock detection. The Coq obligations of this property are still placeholders (a monotonicity / positivity lemma); the structural theorems over a list/bucket model are work in progress.' % _t,
        note='Exploration with exact oracles, not a proof: the Coq part does not yet carry the property. SC interleavings only.',
@@ -41,19 +41,31 @@ CLAIMED['C15'] = dict(
    text='Machine-checked theorems (Coq 8.16.1) about marked_ptr generated from marked_ptr.hpp and utils.hpp, generic in MarkBits (1..32) and MaxUpperMarkBits: get/mark round trip, representation equality = (pointer, trimmed mark) equality, bit layout, rotate round trip - for all marks and all canonical pointers. The generated functions are also run against the compiled C++ for 14 instantiations on every run. The guard_ptr algebra (copy/move/swap/self-assignment/double reset, acquire / acquire_if_equal snapshot rules) is explored for every reclaimer with bounded random single-thread sequences and a concurrently replacing thread.',
    note='Trusted: Coq kernel, translator (mitigated by the differential run). The guard algebra part is exploration, not proof.',
    technique='Coq proof over generated marked_ptr arithmetic + differential run; schedule search for the guard algebra', design='5/C15')
-for _p, _t in (('C01', 'safe reclamation'), ('C02', 'retired objects destroyed exactly once'), ('C17', 'dynamic threads'), ('C18', 'hazard slots')):
+for _p, _t in (('C01', 'safe reclamation'), ('C02', 'retired objects destroyed exactly once')):
     CLAIMED[_p] = dict(
        text='%s: decided so far by a schedule search over the real reclaimers (8 configurations in the quick tier, 20 in the thorough tier: static/dynamic HP and HE with K=1..3, EBR/NEBR/DEBRA and four further generic_epoch_based configurations, QSBR, Stamp-it, LFRC with and without thread-local free list) driven by a generic protocol-conforming client; strategies: random, PCT, preemption-bounded DFS, sequential generations, and a three-party phase sweep (holder / scanner-or-epoch-advancer / retire-and-exit); oracles: guarded node alive on every dereference, quarantine allocator (use-after-free, double free), census after a public-API flush, slot-exhaustion rules, bookkeeping growth. The Coq obligations of this property are still placeholders; the reclaimer models are work in progress.' % _t,
        note='Exploration with exact oracles, not a proof yet. SC interleavings only (fences: C03).',
        technique='schedule search with memory-safety / census / slot oracles (Coq model pending)', design='5/' + _p, level='exploration')
 CLAIMED['C16'] = dict(
-   text='Solo-termination search over the real code: from prefixes of random schedules of small programs (other threads stopped mid-operation) one thread inside or about to start an operation documented lock-free runs alone and must return within 5000 of its own atomic steps; a thread that only re-reads unchanged locations is reported as waiting. Covers all queues, the chase deque, seqlock load (slots > 1), left_right read, Harris-Michael operations and iterators, vyukov_hash_map::try_get_value and guard acquire/reset/reclaim of the reclaimers. The Coq obligations of this property are still placeholders; the solo bounds over the proved invariants are work in progress.',
-   note='Exploration, not a proof yet. SC interleavings only.',
-   technique='solo-run search from explored prefixes (Coq solo-bound theorems pending)', design='5/C16', level='exploration')
+   text='Machine-checked solo-termination theorems (Coq 8.16.1, Conc/Solo.v: a thread that runs alone from ANY reachable state - all other threads stopped at arbitrary points inside their operations - finishes within an explicit bound, and none of its steps is disabled) for the five step-level models that are tied to the code by trace correspondence: chase deque try_push/try_pop/try_steal (fixed: 8 steps; growing: 12 + 2*capacity), left_right read (exactly 7), vyukov weak push/pop (5), michael_scott push/pop (12), seqlock load with slots > 1 (2*words + 4); the documented exceptions (strong vyukov operations, seqlock store/update and single-slot load, left_right update) are proved blocking from concrete reachable states, which shows the notion is not vacuous; thread_block_list acquire (2*records+5) is in C17. The implementation is run solo with exactly the proved budgets. All other lock-free operations (remaining queues, Harris-Michael containers and iterators, vyukov_hash_map::try_get_value, guard operations of all reclaimers) are decided by the solo search on the real code: random prefixes and a systematic sweep (thread a stopped after j operations + k steps, thread b alone), 5000-step budget, waiting detection.',
+   note='Proved for the five models only; the other operations are explored, not proved. SC interleavings. Trusted: Coq kernel, extraction, xvrt/harness.',
+   technique='Coq solo-termination proofs over step-level models + trace correspondence + proved budgets run on the implementation; solo-run search', design='0.2/C16')
+CLAIMED['C17'] = dict(
+   text='Machine-checked theorems (Coq 8.16.1) on a step-level model of thread_block_list (the per-thread record list every reclaimer shares): a record is never owned by two threads, records are never removed or duplicated, the number of records never exceeds the peak number of threads that were registering or registered at the same time (three stronger natural bounds are refuted by a concrete schedule that was replayed on the real code), a free record is reused, acquire terminates solo. Tied to thread_block_list.hpp by trace correspondence (harness/h_tbl.cpp). What each reclaimer does with its record (retire lists, slot blocks, hand-over at exit) is decided by the search: sequential generations of identical threads must not increase the number of live bookkeeping blocks between 6 and 12 generations (incl. a many-guards generation), overlapping generations run with the C01/C02 oracles.',
+   note='Proved for the record list; per-reclaimer bookkeeping is explored. SC interleavings. Trusted: Coq kernel, extraction, xvrt/harness.',
+   technique='Coq invariant proof over step-level model + trace correspondence; growth measurement and schedule search on the reclaimers', design='0.2/C17')
+CLAIMED['C18'] = dict(
+   text='Machine-checked theorems (Coq 8.16.1) on an executable model of the hazard pointer / hazard era slot pool and the guard_ptr operations on top of it, for every K >= 1, every number of guards and every operation sequence: the free list is exactly the unheld slots, guards hold distinct slots, a guard has a slot iff its pointer is non-null, an acquisition throws iff K slots are held by guards with non-null pointers and then leaves every other guard unchanged and the asking guard empty, reset / move / copy slot accounting, no leak after all resets, the dynamic strategy never throws (hazard eras: reference-counted shared slots). Tied to the code by a differential run on every check: random operation sequences on the model (vm_compute) and on the real guard_ptrs, comparing outcomes, slot indices, protected sets and free lists line by line. Three defects the proofs exposed were repaired in /repo. The multi-threaded side (scans see the protected objects, exhaustion under concurrent retirement) is covered by the search.',
+   note='Sequential per-thread core proved; concurrent behaviour explored. Trusted: Coq kernel (vm_compute for the differential), harness.',
+   technique='Coq proof over executable slot-pool/guard model + differential run against the real guard_ptrs; schedule search', design='0.2/C18')
+CLAIMED['C08'] = dict(
+   text='Machine-checked theorems (Coq 8.16.1) on a step-level model of harris_michael_list_based_set (emplace / emplace_or_get, erase(key), contains / find with helping and restarts) over a reclaimer that never reuses a referenced node: list structure (sorted, duplicate free, marks and next pointers of marked nodes frozen, retired = unlinked and marked), abstraction (abstract set = keys of unmarked reachable nodes), linearization points, every returned result equals the sequential-set answer at a state inside the call, exactly one of racing erases of a node succeeds, conservation at quiescence - for any number of threads, programs and schedules. Tied to the code by trace correspondence (GC reclaimer instance; harris_michael_hash_map with one bucket gives identical traces). Multi-bucket maps, get_or_emplace(_lazy), erase(iterator), hash memoization and the real reclaimers (ABA under reuse) are decided by the search with an exact linearizability oracle.',
+   note='Proved for the list-based set model; the hash map wrappers and real reclaimers are explored. SC interleavings. Trusted: Coq kernel, extraction, xvrt/harness.',
+   technique='Coq linearizability-style invariant proof over step-level model + trace correspondence; schedule search with exact linearizability oracle', design='0.2/C08')
 CLAIMED['C03'] = dict(
-   text='C++ memory model: (1) a Coq theorem over a table GENERATED on every run from the numbered synchronisation annotations of all xenium headers and the memory orders written at the annotated statements (227 sites): every site is at least as strong as its annotation, every declared pair is release-class -> acquire-class or seq_cst <-> seq_cst, production and TSan variant; (2) machine-checked theorems about the view-based weak-memory machine the exploration runs on (well-formedness, coherence, message passing through release/acquire, fences and release sequences, store buffering excluded only by seq_cst fences, SC executions included, litmus non-vacuity); (3) the deciding part for whole algorithms: the real code of every container and reclaimer runs under rt/xvrt in weak mode (stale reads within a window, views, C++11 release sequences) and in race mode (vector-clock happens-before over plain accesses), with the same oracles as the SC checks (conservation, happens-before-ordered linearizability, UAF/double free, torn values, livelock).',
-   note='Exploration decides the algorithm-level claim; the theorems cover the annotated contract and the machine. Weak executions explored: no load buffering, staleness window W=16 (quick) / 64 (thorough). Known finding C03-kfb-weak-lost-element.',
-   technique='Coq theorem over generated sync-annotation table + Coq theorems about the weak-memory machine; weak-memory / race exploration of the real code', design='5/C03', level='exploration')
+   text='C++ memory model. Proved: (1) a theorem over a table GENERATED on every run from the numbered synchronisation annotations of all headers and the memory orders at the annotated statements (every site at least as strong as annotated, every pair release->acquire or sc<->sc, TSan variant); (2) the meta-theory of the view-based weak-memory machine the exploration runs on (well-formedness, coherence, message passing via acquire / fences / release sequences, store buffering excluded only by seq_cst fences, SC executions included, litmus non-vacuity); (3) for seqlock - the structure whose correctness rests on fences - load atomicity, update on the latest generation and writer exclusion on EVERY execution of the weak machine, any number of threads / words / slots, instantiated with the memory orders GENERATED from seqlock.hpp, with machine-checked counter-example executions for every weakened site. Decided by exploration for everything else: the real code of every container and reclaimer runs under rt/xvrt in weak mode (stale reads within a window, views, C++11 release sequences) and race mode (happens-before over plain accesses) with the SC oracles (conservation, happens-before-ordered linearizability, UAF, torn values, livelock).',
+   note='Whole-algorithm robustness is proved for seqlock only and explored elsewhere (no load buffering, staleness window W=16 quick / 64 thorough). Known finding C03-kfb-weak-lost-element. Trusted: Coq kernel, the two generators, xvrt.',
+   technique='Coq theorems (generated sync table, weak-memory machine meta-theory, seqlock on the weak machine with generated orders); weak-memory / race exploration of the real code', design='0.2/C03')
 NOT_YET = {}
 props = [json.loads(l) for l in open(os.path.join(V, 'properties.jsonl'))]
 checks, na = [], []
